@@ -14,7 +14,7 @@ ARCH_FILE = {
 }
 ARCH_FILES = set(ARCH_FILE.values())
 # architectures on which the architecture-independent layers (generic kernels, operators, API) are proved in the quick tier
-QUICK_BASE = {"sse2", "avx2", "avx512bw"}
+QUICK_BASE = {"sse2", "avx512bw"}
 
 C01_OPS = ["add", "sub", "mul", "neg", "abs", "min", "max", "incr", "decr", "incr_if", "decr_if", "fma", "fms", "fnma", "fnms", "div", "mod",
            "sign", "sadd", "ssub", "avg", "avgr"]
@@ -238,6 +238,9 @@ def main(argv):
         if a.prop == "C20":
             from . import c20
             return c20.run(a.tier, seed)
+        if a.prop == "C14":
+            from . import c14
+            return c14.run(a.tier, seed)
         if a.prop == "C17":
             return run_c17(a.tier, seed, a.ops.split(",") if a.ops else None, a.types.split(",") if a.types else None)
         print("unknown property", a.prop)
